@@ -1296,6 +1296,33 @@ def p_one( ctx ):
                 res.bad( src, c, '%s: %s' % ( qn, norm_text( ast.unparse( c ))[:70] ), 'outside the per-frame call the request processor must be given an empty artifact: anything else is acted upon as a request', func=qn )
         if not acts:
             continue
+        # between the completion of a frame and its processing the handler does not look INTO the request: the only consumer of its fields
+        # is enip_process ( whose failures become a reply or a controlled end ).  A field read in the loop itself - to log it, to show it in
+        # the statistics - is evaluated for every value a peer can send: eight arbitrary octets of sender context do not decode as UTF-8,
+        # the statement raises, and a complete well-formed request gets no reply at all
+        looks = [ x for x in ast.walk( loop ) if (( isinstance( x, ast.Attribute ) and dotted( x ) and dotted( x ).startswith( DATA + '.request' ))
+                                                   or ( isinstance( x, ast.Subscript ) and dotted( x.value ) == DATA and isinstance( try_fold( x.slice ), str ) and try_fold( x.slice ).startswith( 'request' )))
+                  and isinstance( getattr( x, 'ctx', None ), ast.Load ) ]
+        looks = [ x for x in looks if not isinstance( src.parent.get( x ), ast.Attribute ) ]
+        if looks:
+            res.bad( src, looks[0], '%s reads a field of the request itself ( %s ) in the receive loop' % ( qn, norm_text( ast.unparse( looks[0] ))[:60] ),
+                     'evaluated for whatever the peer sent, outside the request processor: a value the expression cannot handle ( a sender context that is not UTF-8 ) raises, the frame is never processed and never answered, and everything pipelined behind it is lost', func=qn )
+        else:
+            res.ok( src, loop, '%s: the receive loop hands the parsed request to enip_process without looking into it' % qn )
+        # a reply is transmitted by ONE conn.send( ... ) whose result is not looked at: that is complete only on a fully blocking socket - no
+        # time-out / non-blocking mode is set on the accepted connection ( here or in network.server_main )
+        part = [ c for c in ast.walk( fn ) if isinstance( c, ast.Call ) and isinstance( c.func, ast.Attribute ) and c.func.attr == 'send' and dotted( c.func.value ) == 'conn'
+                 and isinstance( src.parent.get( c ), ast.Expr ) ]
+        if part and qn == 'enip_srv_tcp':
+            nsrc = ctx.src( 'server/network.py' )
+            modes = [ ( s_, c ) for s_ in ( src, nsrc ) for c in ast.walk( s_.tree ) if isinstance( c, ast.Call ) and isinstance( c.func, ast.Attribute ) and c.func.attr in ( 'settimeout', 'setblocking' )
+                      and dotted( c.func.value ) == 'conn' and not ( c.func.attr == 'setblocking' and c.args and try_fold( c.args[0] ) is True )
+                      and not ( c.func.attr == 'settimeout' and c.args and isinstance( c.args[0], ast.Constant ) and c.args[0].value is None ) ]
+            if modes:
+                res.bad( modes[0][0], modes[0][1], 'the accepted connection is given a time-out / non-blocking mode ( %s ) while replies are sent by a single conn.send( ... )' % norm_text( ast.unparse( modes[0][1] ))[:50],
+                         'with the send buffer full ( many requests written before any reply is read ) send() transmits part of the reply or raises socket.timeout, which the handler takes for "client abandoned": processed requests go unanswered, the stream carries a truncated frame', func=qn )
+            else:
+                res.ok( src, part[0], 'replies are sent with one blocking conn.send( ... ): no time-out or non-blocking mode is set on the accepted connection' )
         for a in acts:
             # outside the frame-parsing loop (the for over the engine)
             inner = _inside( src, a.stmt, ( ast.For, ), loop ) or _inside( src, a.stmt, ( ast.While, ), loop )
